@@ -131,6 +131,24 @@ class RefGraph:
                 break
         return out
 
+    def colouring_cost(self):
+        """colour refinement of the stereo classes walks through all deg!
+        neighbour orders of every atom that has no oriented descriptor: the
+        sum of these factorials (0 for the plain classes)"""
+        import math
+        if not self.is_stereo:
+            return 0
+        n = self.neighbours()
+        cost = 0
+        for a in self.atoms:
+            d = self.astereo.get(a)
+            if d is not None and d[2] is not None:
+                continue
+            k = len(n[a])
+            if k >= 5:
+                cost += math.factorial(min(k, 15))
+        return cost
+
     def role(self, bond):
         return self.bonds[bond].get("reaction")
 
